@@ -139,6 +139,11 @@ impl RwsToString for i16 {
     #[verifier::external_body]
     fn rws_to_string(&self) -> String { self.to_string() }
 }
+impl RwsToString for i32 {
+    open spec fn ts(&self) -> Seq<char> { dec_i(*self as int) }
+    #[verifier::external_body]
+    fn rws_to_string(&self) -> String { self.to_string() }
+}
 impl RwsToString for i64 {
     open spec fn ts(&self) -> Seq<char> { dec_i(*self as int) }
     #[verifier::external_body]
